@@ -73,6 +73,20 @@ def _literal_between(fmt, i):
     return i < len(parts) and parts[i][0] is not None and any(ch.isspace() for ch in parts[i][0])
 
 
+def _iter_of(func, comp):
+    """Iterable of a comprehension's first generator, followed through a local (`columns = range(...)`)."""
+    it = comp.generators[0].iter
+    if isinstance(it, ast.Name):
+        from ..flow import deref as _deref, flow_of as _flow_of
+        fl = _flow_of(func)
+        try:
+            it2, _ = _deref(fl, it, fl.cfg.node_of(comp))
+        except AnalysisError:
+            return it
+        return it2
+    return it
+
+
 def r191(ctx):
     rid = "R-19.1"
     tree = ctx.tree
@@ -92,7 +106,7 @@ def r191(ctx):
     wname = pname = None
     for n in walk_local(rd):
         if isinstance(n, ast.ListComp) and any(isinstance(c, ast.Call) and last_name(c) == "float" and c.args and isinstance(c.args[0], ast.Subscript) and isinstance(c.args[0].slice, ast.Slice) for c in ast.walk(n.elt)):
-            it = n.generators[0].iter
+            it = _iter_of(rd, n)
             if isinstance(it, ast.Call) and last_name(it) == "range" and len(it.args) == 3:
                 if isinstance(it.args[2], ast.Name):
                     wname = it.args[2].id
@@ -138,7 +152,7 @@ def r191(ctx):
     starts = []
     for n in walk_local(rd):
         if isinstance(n, ast.ListComp) and any(isinstance(c, ast.Call) and last_name(c) == "float" and c.args and isinstance(c.args[0], ast.Subscript) and isinstance(c.args[0].slice, ast.Slice) for c in ast.walk(n.elt)):
-            it = n.generators[0].iter
+            it = _iter_of(rd, n)
             try:
                 rng = eval(compile(ast.Expression(ast.fix_missing_locations(ast.Call(func=ast.Name("list", ast.Load()), args=[it], keywords=[]))), "<r>", "eval"), {"list": list, "range": range, wname: _len, pname: _pos})
             except Exception as exc:
@@ -499,15 +513,59 @@ def r194(ctx):
     else:
         ctx.bad(rid, rh, "TRR header item table does not end with (time, lambda)")
     rt = tree.func(GROMACS, "read_trr_data")
-    order = []
-    for n in walk_local(rt):
-        if isinstance(n, ast.For) and isinstance(n.iter, ast.Tuple):
+    # which block is read by which decoder, in which order: the loops of read_trr_data run over constant
+    # key tables, so they are unrolled here with the loop variable (and string locals derived from it) bound
+    order, decoder = [], {}
+    consts_ = tree.mod(GROMACS).consts
+
+    def _sval(e, env):
+        """value of a string expression over the bound loop variable, or None"""
+        try:
+            code = compile(ast.Expression(ast.fix_missing_locations(__import__("copy").deepcopy(e))), "<trr>", "eval")
+            return eval(code, {"__builtins__": {}, "len": len, "str": str}, dict(env))
+        except Exception:
+            return None
+
+    def _walk(stmts, env):
+        for st in stmts:
+            if isinstance(st, ast.Assign) and len(st.targets) == 1 and isinstance(st.targets[0], ast.Name):
+                v = _sval(st.value, env)
+                if isinstance(v, str):
+                    env[st.targets[0].id] = v
+            if isinstance(st, ast.If):
+                t = _sval(st.test, env)
+                if t is None or not isinstance(t, bool):
+                    # a test on the header contents: both outcomes happen (`continue` in the true branch ends this key)
+                    ends = any(isinstance(x, ast.Continue) for x in st.body)
+                    _walk(st.body, dict(env)) if not ends else None
+                    if st.orelse:
+                        _walk(st.orelse, dict(env))
+                    continue
+                _walk(st.body if t else st.orelse, env)
+                continue
+            for c in [x for x in ast.walk(st) if isinstance(x, ast.Call) and last_name(x) in ("read_matrix", "read_coord")]:
+                tgt = st.targets[0] if isinstance(st, ast.Assign) else None
+                k = _sval(tgt.slice, env) if isinstance(tgt, ast.Subscript) else None
+                if isinstance(k, str):
+                    order.append(f"{k}_size")
+                    decoder[k] = last_name(c)
+
+    for n in rt.body:
+        if isinstance(n, ast.For) and isinstance(n.target, ast.Name):
             try:
-                order += [f"{k}_size" for k in const_fold(n.iter)]
-            except ValueError:
-                pass
-    if tuple(order) == tuple(data_items):
-        ctx.ok(rid, rt, f"TRR data: bytes skipped/required = bytes read: TRR_DATA_ITEMS equals the <key>_size fields consumed by read_trr_data in file order {order}")
+                keys = const_fold(n.iter, consts_)
+            except (ValueError, KeyError):
+                continue
+            for k in keys:
+                _walk(n.body, {n.target.id: k})
+    want = {"box": "read_matrix", "vir": "read_matrix", "pres": "read_matrix", "x": "read_coord", "v": "read_coord", "f": "read_coord"}
+    wrong = {k: d for k, d in decoder.items() if want.get(k) != d}
+    if wrong:
+        k0 = sorted(wrong)[0]
+        ctx.bad(rid, rt, f"TRR data: the `{k0}` block is decoded by {wrong[k0]} (expected {want.get(k0)}): box, vir and pres are 3x3 matrices, x, v and f are natoms x 3 arrays - a frame that carries the block is read with the wrong number of reals, and every block after it (positions, velocities) from the wrong bytes",
+                construct=f"read_trr_data: {k0} decoded by {wrong[k0]}")
+    elif tuple(order) == tuple(data_items):
+        ctx.ok(rid, rt, f"TRR data: bytes skipped/required = bytes read: TRR_DATA_ITEMS equals the <key>_size fields consumed by read_trr_data in file order {order}, each by its decoder")
     else:
         ctx.bad(rid, rt, f"TRR data: TRR_DATA_ITEMS {list(data_items)} differs from the blocks read_trr_data consumes {order}: size guards and skips disagree with what is read",
                 construct=f"TRR_DATA_ITEMS {list(data_items)} vs read order {order}")
@@ -1201,6 +1259,8 @@ def run(ctx):
 
 
 VARIANTS = [
+    B("c19-trr-virial-read-as-coordinates", GROMACS, "    for key in (\"box\", \"vir\", \"pres\"):\n        header_key = f\"{key}_size\"\n        if header[header_key] != 0:\n            data[key] = read_matrix(fileh, endian, double)\n    for key in (\"x\", \"v\", \"f\"):\n        header_key = f\"{key}_size\"\n        if header[header_key] != 0:\n            data[key] = read_coord(fileh, endian, double, header[\"natoms\"])\n", "    for header_key in TRR_DATA_ITEMS:\n        if header[header_key] == 0:\n            continue\n        key = header_key[: -len(\"_size\")]\n        if key == \"box\":\n            data[key] = read_matrix(fileh, endian, double)\n        else:\n            data[key] = read_coord(fileh, endian, double, header[\"natoms\"])\n", "R-19.4", control=True, why="seeded C19_o"),
+    K("c19-keep-trr-blocks-read-in-one-loop", GROMACS, "    for key in (\"box\", \"vir\", \"pres\"):\n        header_key = f\"{key}_size\"\n        if header[header_key] != 0:\n            data[key] = read_matrix(fileh, endian, double)\n    for key in (\"x\", \"v\", \"f\"):\n        header_key = f\"{key}_size\"\n        if header[header_key] != 0:\n            data[key] = read_coord(fileh, endian, double, header[\"natoms\"])\n", "    for header_key in TRR_DATA_ITEMS:\n        if header[header_key] == 0:\n            continue\n        key = header_key[: -len(\"_size\")]\n        if key in (\"box\", \"vir\", \"pres\"):\n            data[key] = read_matrix(fileh, endian, double)\n        else:\n            data[key] = read_coord(fileh, endian, double, header[\"natoms\"])\n", why="one loop over the item table with the right decoder per block"),
     B("c19-g96-coordinates-by-whitespace-tokens", GROMACS, "            pos = [\n                float(line[i : i + _len]) for i in range(_pos, 4 * _len, _len)\n            ]\n", "            pos = [float(i) for i in line[_pos:].split()]\n", "R-19.1", control=True, why="seeded C19_n"),
     B("c19-g96-reduced-coordinates-by-whitespace-tokens", GROMACS, "            pos = [float(line[i : i + _len]) for i in range(0, 3 * _len, _len)]\n", "            pos = [float(i) for i in line.split()]\n", "R-19.1"),
     B("c19-cp2k-terminator-case-sensitive", CP2K, 'if lstrip[1:].lower().startswith("end"):', 'if strip[0] == "END":', "R-19.17", control=True, why="seeded C19_m"),
